@@ -848,4 +848,4 @@ V('M-dot-window', ['C20'], 'A11.canon', CE, "        if self.DOT_CHAR in numbers
 V('M-cer-bool-next', ['C05', 'C06'], 'A2.next', CD,
   "        for chunk in readFromStream(substrate, length, options):\n            if isinstance(chunk, SubstrateUnderrunError):\n                yield chunk\n\n        byte = oct2int(chunk[0])",
   "        chunk = next(readFromStream(substrate, length, options))\n\n        byte = oct2int(chunk[0])")
-V('M-no-probe', ['C05', 'C06', 'C08'], ('A2.probe', 'A3.trunc'), ST, "            more = substrate.read(1)", "            more = None if not isinstance(substrate, io.BytesIO) else substrate.read(1)")
+V('M-no-probe', ['C05', 'C06'], ('A2.probe', 'A3.trunc', 'A2.retry'), ST, "            more = substrate.read(1)", "            more = isinstance(substrate, io.BytesIO) and substrate.read(1) or None")
